@@ -614,6 +614,10 @@ class Text:
     def column(cm, style=0):
         vals = cm["values"]
         data = np.array(vals, dtype=str) if style % 2 else list(vals)
+        if style % 4 == 3 and len(vals):
+            # the strings in an array of a wider type than they need (a chain_id column is 'U4', a slice of a larger
+            # table keeps the width of that table): the content is the same
+            data = np.array(vals, dtype="U%d" % (max(len(v) for v in vals) + 1 + style % 5))
         if style % 3 == 2:
             data = pdbx.CIFData(data, str)
         if cm["mask"] is None:
